@@ -233,16 +233,21 @@ def _encode_arg(tag, v):
         return struct.pack('>q', v)
     if tag == 't':
         return encode_timetag(v)
-    if tag == 'd':
-        return struct.pack('>d', v)
-    if tag == 'c':
-        return struct.pack('>I', ord(v))
-    if tag == 'r':
-        return struct.pack('>I', v)
-    if tag == 'm':
-        if len(v) != 4 or any(not 0 <= x <= 255 for x in v):
-            raise OscEncodeError(f'not a MIDI message: {v!r}')
-        return bytes(v)
+    if tag in 'dcrm':
+        try:
+            if tag == 'd':
+                return struct.pack('>d', v)
+            if tag == 'c':
+                return struct.pack('>I', ord(v))
+            if tag == 'r':
+                return struct.pack('>I', v)
+            if len(v) != 4 or any(not 0 <= x <= 255 for x in v):
+                raise OscEncodeError(f'not a MIDI message: {v!r}')
+            return bytes(v)
+        except (struct.error, TypeError, ValueError, OverflowError) as e:
+            if isinstance(e, OscEncodeError):
+                raise
+            raise OscEncodeError(f'bad value for tag {tag!r}: {v!r}') from e
     if tag in 'TFNI':
         return b''
     raise OscEncodeError(f'unknown type tag {tag!r}')
@@ -488,7 +493,10 @@ def decode_message(data, ascii_only=False, allow_missing_tags=False):
         elif t == 'd':
             v = struct.unpack('>d', r.take(8, 'float64'))[0]
         elif t == 'c':
-            v = chr(struct.unpack('>I', r.take(4, 'char'))[0])
+            code = struct.unpack('>I', r.take(4, 'char'))[0]
+            if code > 0x10FFFF:
+                raise OscDecodeError(f'char argument out of range: {code}')
+            v = chr(code)
         elif t == 'r':
             v = struct.unpack('>I', r.take(4, 'rgba'))[0]
         elif t == 'm':
